@@ -79,7 +79,7 @@ def inverse(a):
 
 def lookup_calls(path):
     return [dict(op="resolve", path=path), dict(op="resolve", path=path, nofollow=True), dict(op="open", path=path, oflags=O["RDONLY"] | O["NONBLOCK"]),
-            dict(op="readlink", path=path)]
+            dict(op="readlink", path=path), dict(op="resolve", path=path, nosym=True), dict(op="open", path=path, oflags=O["PATH"], nosym=True)]
 
 
 def baseline_counts(nodes, calls, feat, jobs=4):
